@@ -15,7 +15,7 @@ Ltac gen_eq_tac :=
   intros;
   repeat autounfold with keysgen in *;
   unfold Keys.try_from_usize, Keys.into_usize, Keys.raw_ok, Keys.is_usize, Base.usize_max,
-         in_range, no_underflow, nonzero_arg, cast, umax, sat_sub in *;
+         in_range, no_underflow, nonzero_arg, try_from_int, checked_add, nz_new, obind, cast, umax, sat_sub in *;
   cbn [Keys.kcap Keys.kwidth Keys.micro_spur Keys.mini_spur Keys.spur Keys.large_spur] in *;
   norm_pow;
   split_cmp;
